@@ -395,7 +395,7 @@ def run(ctx):
         jobs.append(lambda: tlc_mc(ctx, 'ra_epochbased', 'EpochBased_RA', eb_ra, invariants=INV_R, view='mcview', constraints=['MsgB'], workers=8, tmo=1500,
                                    extra_files={'EpochBased_RA.tla': ord_module('EpochBased', tabb, LEAVES)[0]}))
         for nm, chg in (('enterfence_acqrel', {'c_fence': 'ar'}), ('leave_store_rlx', {'l_flag': 'rlx'}), ('no_scan_fence', {'g_fence': 'none'}))[:1 if q else 3]:
-            jobs.append(lambda nm=nm, chg=chg: tlc_mc(ctx, 'ra_toggle_eb_' + nm, 'EpochBased_RA', eb_ra, invariants=INV_R, view='mcview', constraints=['MsgB'], workers=4,
+            jobs.append(lambda nm=nm, chg=chg: tlc_mc(ctx, 'ra_toggle_eb_' + nm, 'EpochBased_RA', eb_ra, invariants=INV_R, view='mcview', constraints=['MsgB'], workers=8,
                                                         expect='violation', tmo=1500, extra_files={'EpochBased_RA.tla': toggle_module('EpochBased', tabb, chg, LEAVES)}))
         QS = 'quiescent_state_based::thread_data::'
         qs_sites = {'a_ld1': ('ld', 'quiescent_state_based::guard_ptr::acquire', 0), 'a_ld2': ('ld', 'quiescent_state_based::guard_ptr::acquire', 1),
@@ -411,7 +411,7 @@ def run(ctx):
         jobs.append(lambda: tlc_mc(ctx, 'ra_qsbr', 'QSBR_RA', qs_ra, invariants=INV_R, view='mcview', constraints=['MsgB'], workers=6, tmo=1500,
                                    extra_files={'QSBR_RA.tla': ord_module('QSBR', tabq, LEAVES)[0]}))
         for nm, chg, role in (('no_update_fence', {'t_fence': 'none'}, LEAVES), ('register_cas_rlx', {'b_cas': 'rlx'}, LEAVES), ('quiescent_store_rlx', {'q_stle': 'rlx'}, STAYS))[:1 if q else 3]:
-            jobs.append(lambda nm=nm, chg=chg, role=role: tlc_mc(ctx, 'ra_toggle_qsbr_' + nm, 'QSBR_RA', qs_ra, invariants=INV_R, view='mcview', constraints=['MsgB'], workers=4,
+            jobs.append(lambda nm=nm, chg=chg, role=role: tlc_mc(ctx, 'ra_toggle_qsbr_' + nm, 'QSBR_RA', qs_ra, invariants=INV_R, view='mcview', constraints=['MsgB'], workers=6,
                                                                    expect='violation', tmo=1500, extra_files={'QSBR_RA.tla': toggle_module('QSBR', tabq, chg, role)}))
         if not q:
             jobs.append(lambda: tlc_mc(ctx, 'ra_qsbr_reader_stays', 'QSBR_RA', qs_ra, invariants=INV_R, view='mcview', constraints=['MsgB'], workers=8, tmo=3000, heap='24g',
